@@ -53,6 +53,11 @@ type Solver struct {
 	scopes   []*scope
 	shared   []int
 	cursor   int
+	// differential sampling
+	SampleEvery  int
+	SampleOffset int
+	SampleMax    int
+	Samples      []SampledQuery
 }
 
 // SlowLog, if set, is called for queries slower than 2 s.
@@ -394,6 +399,9 @@ func (s *Solver) CheckSat(extra []*Term, wantModel []*Term) (SatResult, map[int]
 			os.WriteFile("/tmp/gosym_slow.smt2", []byte(s.log.String()), 0o644)
 		}
 	}
+	if s.SampleEvery > 0 && res != Unknown && s.Queries%s.SampleEvery == s.SampleOffset%s.SampleEvery && len(s.Samples) < s.SampleMax {
+		s.Samples = append(s.Samples, SampledQuery{Script: StandaloneScript(extra), Result: res})
+	}
 	var model map[int]string
 	switch res {
 	case Sat:
@@ -547,3 +555,117 @@ func ModelInt(v string) *big.Int {
 	return b
 }
 
+
+// ---- differential cross-check: a sample of the queries is written out as standalone scripts
+// and later decided again by z3 (see cmd/gosym: differential pass).
+
+type SampledQuery struct {
+	Script string
+	Result SatResult
+}
+
+// StandaloneScript renders asserts as a self-contained SMT-LIB script (declarations, side
+// conditions, instantiated axioms, assertions, check-sat).
+func StandaloneScript(asserts []*Term) string {
+	var sb strings.Builder
+	sb.WriteString("(set-logic ALL)\n")
+	seen := map[int]bool{}
+	declared := map[string]bool{}
+	var apps []*Term
+	var side []string
+	var visit func(x *Term)
+	visit = func(x *Term) {
+		if seen[x.ID] {
+			return
+		}
+		seen[x.ID] = true
+		switch x.Op {
+		case "var":
+			n := SymName(x.S)
+			if !declared[n] {
+				declared[n] = true
+				sb.WriteString(fmt.Sprintf("(declare-fun %s () %s)\n", n, x.Sort))
+			}
+		case "zeros":
+			n := SymName("zeros!" + fmt.Sprint(x.ID))
+			if !declared[n] {
+				declared[n] = true
+				sb.WriteString(fmt.Sprintf("(declare-fun %s () String)\n", n))
+			}
+		case "app":
+			n := SymName(x.S)
+			if !declared[n] {
+				declared[n] = true
+				sig := UFs[x.S]
+				var as []string
+				for _, a := range sig.Args {
+					as = append(as, a.String())
+				}
+				sb.WriteString(fmt.Sprintf("(declare-fun %s (%s) %s)\n", n, strings.Join(as, " "), sig.Res))
+			}
+		}
+		for _, a := range x.Args {
+			visit(a)
+		}
+		switch x.Op {
+		case "var":
+			n := SymName(x.S)
+			if x.Sort == SStr {
+				if strings.Contains(x.S, "!alnum") {
+					side = append(side, fmt.Sprintf("(assert (not (str.contains %s \",\")))", n), fmt.Sprintf("(assert (not (str.contains %s \";\")))", n))
+				}
+				if k, ok := fixedLenOfVar(x.S); ok {
+					side = append(side, fmt.Sprintf("(assert (= (str.len %s) %d))", n, k))
+				} else {
+					side = append(side, fmt.Sprintf("(assert (str.in_re %s %s))", n, bytesRe))
+					if k, ok := maxLenOfVar(x.S); ok {
+						side = append(side, fmt.Sprintf("(assert (<= (str.len %s) %d))", n, k))
+					}
+				}
+			}
+			if x.Sort == SInt {
+				if x.lo != nil {
+					side = append(side, fmt.Sprintf("(assert (>= %s %s))", n, smtInt(x.lo)))
+				}
+				if x.hi != nil {
+					side = append(side, fmt.Sprintf("(assert (<= %s %s))", n, smtInt(x.hi)))
+				}
+			}
+		case "zeros":
+			n := SymName("zeros!" + fmt.Sprint(x.ID))
+			side = append(side, fmt.Sprintf("(assert (str.in_re %s (re.* (str.to_re \"\\u{0}\"))))", n), fmt.Sprintf("(assert (= (str.len %s) %s))", n, x.Args[0].String()))
+		case "app":
+			if x.Sort == SStr {
+				if k, ok := ufFixedLen[x.S]; ok {
+					side = append(side, fmt.Sprintf("(assert (= (str.len %s) %d))", x.String(), k))
+				}
+			}
+			if _, ok := ufAlphabet[x.S]; ok {
+				for _, c := range []string{",", ";"} {
+					if ufFreeOf(x.S, c[0]) {
+						side = append(side, fmt.Sprintf("(assert (not (str.contains %s \"%s\")))", x.String(), c))
+					}
+				}
+			}
+			existing := append([]*Term{}, apps...)
+			apps = append(apps, x)
+			for _, f := range axiomFns {
+				for _, ax := range f(x, existing) {
+					visit(ax)
+					side = append(side, "(assert "+ax.String()+")")
+				}
+			}
+		}
+	}
+	for _, t := range asserts {
+		visit(t)
+	}
+	for _, l := range side {
+		sb.WriteString(l + "\n")
+	}
+	for _, t := range asserts {
+		sb.WriteString("(assert " + t.String() + ")\n")
+	}
+	sb.WriteString("(check-sat)\n")
+	return sb.String()
+}
